@@ -421,12 +421,49 @@ func TestC04(t *testing.T) {
 				copySubviewHistories(out, cfg, h, 460, n/2, false)
 			}
 			randomHistories(out, "rand", cfg, h, int64(400+ci), n, func(g *gen) *histGen { return &histGen{g: g, r: g.r} })
+			// unions that carry one type under several selectors (re-tagging a value: the union's
+			// own content, taken out with Value(), put back under another selector)
+			twinUnionHistories(out, cfg, h, int64(490+ci), n/4)
 			if ci == 0 {
 				// sub-views handed out by Iter() while the parent is being changed
 				randomHistories(out, "iter", cfg, h, 470, n/2, func(g *gen) *histGen { return &histGen{g: g, r: g.r, iters: true} })
 				iterScripts(out, cfg, h)
 			}
 		})
+	}
+}
+
+func twinUnionHistories(out *caseOut, cfg string, h tree.HashFn, salt int64, n int) {
+	g := &gen{r: newRng(salt), noBool: true, maxElem: 6}
+	hg := &histGen{g: g, r: g.r}
+	for k := 0; k < n; k++ {
+		e := g.ty(1 + g.r.Intn(2))
+		for !isComposite(e) {
+			e = g.ty(1 + g.r.Intn(2))
+		}
+		other := g.ty(1)
+		var u *Ty
+		switch g.r.Intn(3) {
+		case 0:
+			u = &Ty{Kind: "union", Fields: []*Ty{e, e}}
+		case 1:
+			u = &Ty{Kind: "union", None: true, Fields: []*Ty{e, other, e}}
+		default:
+			u = &Ty{Kind: "union", Fields: []*Ty{other, e, e, e}}
+		}
+		ty := u
+		switch g.r.Intn(3) {
+		case 0:
+			ty = &Ty{Kind: "cont", Fields: []*Ty{{Kind: "u", N: 1}, u}}
+		case 1:
+			ty = &Ty{Kind: "list", Elem: u, N: 4}
+		}
+		v := g.val(ty)
+		ops, obs := genHistory(hg, ty, v, "ctor", 40+g.r.Intn(30), h)
+		if obs == "BUILD-ERR" {
+			continue
+		}
+		histCase(out, "twin", cfg, ty, v, "ctor", ops, obs)
 	}
 }
 
